@@ -5,6 +5,7 @@ package tally
 import (
 	"io"
 	"sync"
+	"time"
 
 	"github.com/uber-go/tally/v4/internal/verifrt"
 )
@@ -44,6 +45,21 @@ func (r *lockedReporter) ReportCounter(name string, tags map[string]string, valu
 func (r *lockedReporter) ReportGauge(name string, tags map[string]string, value float64) {
 	r.mu.Lock()
 	r.vReporter.ReportGauge(name, tags, value)
+	r.mu.Unlock()
+}
+func (r *lockedReporter) ReportTimer(name string, tags map[string]string, d time.Duration) {
+	r.mu.Lock()
+	r.vReporter.ReportTimer(name, tags, d)
+	r.mu.Unlock()
+}
+func (r *lockedReporter) ReportHistogramValueSamples(name string, tags map[string]string, b Buckets, lo, hi float64, n int64) {
+	r.mu.Lock()
+	r.vReporter.ReportHistogramValueSamples(name, tags, b, lo, hi, n)
+	r.mu.Unlock()
+}
+func (r *lockedReporter) ReportHistogramDurationSamples(name string, tags map[string]string, b Buckets, lo, hi time.Duration, n int64) {
+	r.mu.Lock()
+	r.vReporter.ReportHistogramDurationSamples(name, tags, b, lo, hi, n)
 	r.mu.Unlock()
 }
 func (r *lockedReporter) Flush() {
